@@ -199,15 +199,35 @@ func permutations(n int, f func(p []int) bool) {
 	rec(0)
 }
 
+type c11Info struct {
+	randomOrder, randomPolicy   bool
+	identityMatches             bool
+	coinNewerSeen, coinCurrSeen bool
+	considered                  int
+}
+
 func judgeC11(c ReqCase) *Fail {
+	info, f := analyseC11(c)
+	if f == nil && info != nil {
+		if info.randomOrder && info.considered >= 3 {
+			aggCollect("C11agg-order", c.Req, 200)
+		}
+		if info.randomPolicy && !info.randomOrder && (info.coinNewerSeen || info.coinCurrSeen) {
+			aggCollect("C11agg-coin", c.Req, 200)
+		}
+	}
+	return f
+}
+
+func analyseC11(c ReqCase) (*c11Info, *Fail) {
 	body := []byte(c.Req)
 	v := viewReq(parseReqM(body))
 	snap, r, out, f := finalState(body)
 	if f != nil {
-		return f
+		return nil, f
 	}
 	if !out.OK {
-		return failf("majority-accepted", "valid majority request rejected: %s", out.Err)
+		return nil, failf("majority-accepted", "valid majority request rejected: %s", out.Err)
 	}
 	w := numMap(v.MP["weights"])
 	policy := str(v.MP["drawResolution"])
@@ -229,6 +249,7 @@ func judgeC11(c ReqCase) *Fail {
 	} else {
 		rest = append(rest, snap.Cons...)
 	}
+	info := &c11Info{randomOrder: randomOrder, randomPolicy: policy == "random", considered: len(snap.Cons)}
 	mg := newMargin()
 	try := func(order []SnapAlt, coin func(int) bool) (string, int) {
 		g, draws := refMajority(snap.Crit, w, order, policy, coin, mg)
@@ -286,9 +307,11 @@ func judgeC11(c ReqCase) *Fail {
 		if anyMatch && draws > 0 && !randomOrder {
 			if !allCurrent {
 				st.inc("C11:coin-newer-observed")
+				info.coinNewerSeen = true
 			}
 			if !allNewer {
 				st.inc("C11:coin-current-observed")
+				info.coinCurrSeen = true
 			}
 		}
 		return anyMatch
@@ -298,6 +321,7 @@ func judgeC11(c ReqCase) *Fail {
 	} else {
 		label = "random-order"
 		idMatch := coinSearch(mkOrder(identity))
+		info.identityMatches = idMatch
 		matched = idMatch
 		if !idMatch {
 			permutations(len(rest), func(p []int) bool {
@@ -314,13 +338,13 @@ func judgeC11(c ReqCase) *Fail {
 	}
 	if mg.min < 1e-9 {
 		st.inc("C11:ambiguous")
-		return nil
+		return nil, nil
 	}
 	if !matched {
 		if label == "fixed" && policy != "random" {
-			return failf("tournament-exact", "fixed order, policy %s: %s\n response %s", policy, why, mustJSON(r.Result))
+			return nil, failf("tournament-exact", "fixed order, policy %s: %s\n response %s", policy, why, mustJSON(r.Result))
 		}
-		return failf("tournament-some-order", "no search order (current first) / coin sequence reproduces the response (policy %s, %s); last mismatch: %s\n response %s", policy, label, why, mustJSON(r.Result))
+		return nil, failf("tournament-some-order", "no search order (current first) / coin sequence reproduces the response (policy %s, %s); last mismatch: %s\n response %s", policy, label, why, mustJSON(r.Result))
 	}
 	st.inc("C11:" + label)
 	// non-trivial: >= 4 alternatives and a draw next to a loss in the tournament
@@ -334,7 +358,7 @@ func judgeC11(c ReqCase) *Fail {
 	if len(v.biasNames()) > 0 {
 		st.inc("C11:with-bias-prefix")
 	}
-	return nil
+	return info, nil
 }
 
 func genC11(t *rapid.T) ReqCase {
@@ -356,8 +380,56 @@ func genC11(t *rapid.T) ReqCase {
 	return mkReqCase(gr)
 }
 
-func init() { register("C11", "C11", 1, genC11, judgeC11) }
+// run-level: the seeded shuffle has an effect, and the random draw policy takes both outcomes
+func judgeC11AggOrder(c AggCase) *Fail {
+	n, nonIdentity := 0, 0
+	for _, req := range c.Reqs {
+		info, f := analyseC11(ReqCase{Req: req})
+		if f != nil || info == nil {
+			continue
+		}
+		n++
+		if !info.identityMatches {
+			nonIdentity++
+		}
+	}
+	if n >= 50 && nonIdentity == 0 {
+		return failf("seeded-random-search-order", "%d decisions with randomAlternativesOrdering=true and >= 3 considered alternatives all equal the listing-order tournament", n)
+	}
+	return nil
+}
 
-func TestC11(t *testing.T) { runRegistered(t, "C11") }
+func judgeC11AggCoin(c AggCase) *Fail {
+	n, newer, cur := 0, 0, 0
+	for _, req := range c.Reqs {
+		info, f := analyseC11(ReqCase{Req: req})
+		if f != nil || info == nil {
+			continue
+		}
+		n++
+		if info.coinNewerSeen {
+			newer++
+		}
+		if info.coinCurrSeen {
+			cur++
+		}
+	}
+	if n >= 50 && (newer == 0 || cur == 0) {
+		return failf("random-policy-takes-both-outcomes", "%d decisions with a score draw under the random policy: newer won in %d, current in %d", n, newer, cur)
+	}
+	return nil
+}
+
+func init() {
+	register("C11", "C11", 1, genC11, judgeC11)
+	registerAggregate("C11", "C11agg-order", judgeC11AggOrder)
+	registerAggregate("C11", "C11agg-coin", judgeC11AggCoin)
+}
+
+func TestC11(t *testing.T) {
+	runRegistered(t, "C11")
+	runAggregate(t, "C11", "C11agg-order", 50, judgeC11AggOrder)
+	runAggregate(t, "C11", "C11agg-coin", 50, judgeC11AggCoin)
+}
 
 var _ = sort.Strings
